@@ -92,6 +92,14 @@ func inputs(thorough bool) []input {
 	for l := 0; l <= sqlgen.NLayouts; l++ {
 		in = append(in, input{fmt.Sprintf("sqlgen-layout-%d", l), sqlgen.Render(base.Toks, l)})
 	}
+	// big inputs (sparse polls like the limit violations below): what an entry point does per block of tokens (buffers, batches,
+	// periodic polls) only shows beyond the block size; two-word keywords, signs and commas all along the text
+	for _, n := range []int{300, 1030, 2060, 5000} {
+		in = append(in, input{fmt.Sprintf("over-big-in-list-%d", n),
+			"SELECT t.a FROM t LEFT JOIN u ON t.a = u.a INNER JOIN v ON u.b = v.b WHERE t.v IN (" + strings.TrimSuffix(strings.Repeat("-7, ", n), ", ") + ") GROUP BY t.k ORDER BY t.k DESC"})
+		in = append(in, input{fmt.Sprintf("over-big-script-%d", n),
+			strings.Repeat("SELECT a, -b FROM t LEFT JOIN u ON t.a = u.a WHERE c IS NOT NULL GROUP BY a, b ORDER BY a DESC;\n", n/24+1)})
+	}
 	// limit violations (huge inputs: only the polls 0, 1, 2, P/2, P-2, P-1, P are fired): the dedicated limit error must not take precedence over a context that is already done
 	in = append(in, input{"over-size-limit", "SELECT 1 " + strings.Repeat(" ", tokenizer.MaxInputSize)})
 	if thorough {
@@ -305,7 +313,7 @@ func Check() *common.Check {
 		Level: "fault_enumeration",
 		// every case is recorded before it runs: a fatal error or a hang of the worker is attributed to it
 		CrashSafe: true,
-		Rule: "for each input (one statement per poll-site context: plain, CTE, nested CTE, CASE, scalar/IN/EXISTS/quantified sub-query, derived table, JOIN ON, set operation, function argument, BETWEEN/IN/LIKE, array index, INSERT…SELECT, DML, script, invalid, 250- and 1000-token lists, 26 lexical layouts, every clause option of sqlgen, an input one byte over the size limit (thorough: one over the token limit; polls 0-2, P/2, P-2..P only); " +
+		Rule: "for each input (one statement per poll-site context: plain, CTE, nested CTE, CASE, scalar/IN/EXISTS/quantified sub-query, derived table, JOIN ON, set operation, function argument, BETWEEN/IN/LIKE, array index, INSERT…SELECT, DML, script, invalid, 250- and 1000-token lists, statements and scripts of about 300 / 1030 / 2060 / 5000 tokens with two-word keywords all along (sparse polls), 26 lexical layouts, every clause option of sqlgen, an input one byte over the size limit (thorough: one over the token limit; polls 0-2, P/2, P-2..P only); " +
 			"thorough adds comments, empty input, tokenizer error, MERGE, CREATE TABLE, window frame, 2500 tokens and every expression hole of sqlgen.Holes() filled with a nested expression) and each of gosqlx.ParseWithContext, Tokenizer.TokenizeContext, Parser.ParseContextFromModelTokens: " +
 			"gosqlx.ParseWithTimeout with timeouts 0, -1ns, -1ms, -1h (expired at entry) and 1h (never fires) on every input; " +
 			"P = polls of ctx.Err() in an undisturbed run is measured, then one case per k in 0..P and per kind in {Canceled, DeadlineExceeded} with a context that reports done from its (k+1)-th poll on; " +
